@@ -107,5 +107,12 @@ func NewMethodEvaluator(
 func (m *MethodEvaluator) Evaluation() error {
 	methodEvaluateStrategy := NewStrategy(m)
 
+	// a dangling dot (`recv.` ends the row): the receiver stays the completion
+	// target, whatever the error recovery evaluates afterwards
+	if m.method == "\n" {
+		targetT := m.parser.LspSuggestTargetT
+		defer func() { m.parser.LspSuggestTargetT = targetT }()
+	}
+
 	return methodEvaluateStrategy.evaluate(m)
 }
